@@ -147,7 +147,18 @@ def gen_plan(prop, run_seed, tier):
     else:
         for _ in range(n):
             steps.append(_gen_step(s))
-    return dict(engine="prepsim", prop=prop, screen=spec, steps=steps)
+    reuse = s.random() < 0.4
+    if reuse and steps:
+        # the same operator (same parameters, hence the same object) serves a later call again, typically after other
+        # operations changed the screen in between (mask / reveal / another operator)
+        for _ in range(s.randint(1, 2)):
+            src = s.choice(steps)
+            if src["op"] in GENERATORS + SMOOTHERS:
+                again = dict(src, seed=s.randrange(2**31))
+                steps.insert(s.randint(steps.index(src) + 1, len(steps)), again)
+                if s.random() < 0.5:
+                    steps.insert(steps.index(again), _gen_step(s, s.choice(["mask", "reveal", "filter"])))
+    return dict(engine="prepsim", prop=prop, screen=spec, steps=steps, reuse_objects=reuse)
 
 
 # ------------------------------------------------------------------------- execution
@@ -173,12 +184,23 @@ def _make_rng(st):
     return rng
 
 
-def _apply(st, cur):
+def _apply(st, cur, objs=None):
+    """objs: per-run cache of operator objects -- a generator / smoother object may serve several calls."""
     import batchie.retrospective as R
     from batchie.data import filter_dataset_to_treatments_that_appear_in_at_least_one_combo
 
     op, p = st["op"], st["params"]
     rng = _make_rng(st)
+    if objs is not None and op in GENERATORS + SMOOTHERS + ["cover"]:
+        key = (op, json.dumps(p, sort_keys=True))
+        if key not in objs:
+            objs[key] = _construct(R, op, p)
+        obj = objs[key]
+        if op in GENERATORS:
+            return obj.generate_plates(cur, rng)
+        if op in SMOOTHERS:
+            return obj.smooth_plates(cur, rng)
+        return obj.generate_and_unmask_initial_plate(cur, rng)
     if op == "pairwise":
         return R.PairwisePlateGenerator(subset_size=p["subset_size"], anchor_size=p["anchor_size"]).generate_plates(cur, rng)
     if op == "permute":
@@ -217,6 +239,21 @@ def _apply(st, cur):
     raise ValueError(op)
 
 
+def _construct(R, op, p):
+    return {
+        "pairwise": lambda: R.PairwisePlateGenerator(subset_size=p["subset_size"], anchor_size=p["anchor_size"]),
+        "permute": lambda: R.PlatePermutationPlateGenerator(force_include_plate_names=p["force"]),
+        "segregate": lambda: R.SampleSegregatingPermutationPlateGenerator(max_plate_size=p["max_plate_size"]),
+        "merge_min": lambda: R.MergeMinPlateSmoother(min_size=p["min_size"]),
+        "merge_top_bottom": lambda: R.MergeTopBottomPlateSmoother(n_iterations=p["n_iterations"]),
+        "fixed_size": lambda: R.FixedSizeSmoother(plate_size=p["plate_size"]),
+        "optimal_size": lambda: R.OptimalSizeSmoother(),
+        "n_per_sample": lambda: R.NPlatePerCellLineSmoother(min_n_cell_line_plates=p["min_n"]),
+        "ensemble": lambda: R.BatchieEnsemblePlateSmoother(min_size=p["min_size"], n_iterations=p["n_iterations"], min_n_cell_line_plates=p["min_n"]),
+        "cover": lambda: R.SparseCoverPlateGenerator(reveal_single_treatment_experiments=p["reveal_single"]),
+    }[op]()
+
+
 class Judge:
     def __init__(self, prop, log, stats):
         self.prop, self.log, self.stats, self.viol = prop, log, stats, []
@@ -250,13 +287,14 @@ def execute(prop, plan):
     chain = []
     flags = set()
     judged_after_chain = False
+    objs = {} if plan.get("reuse_objects") else None
     for i, st in enumerate(plan["steps"]):
         op = st["op"]
         before = _rows(cur)
         before_ids = ref.row_ids(cur)
         stats.steps += 1
         try:
-            out = _apply(st, cur)
+            out = _apply(st, cur, objs)
         except Exception as e:
             log.ev("step", i, op, "raised", type(e).__name__)
             stats.probe("op_raised:" + op)
